@@ -99,6 +99,7 @@ func c20(c *Ctx) {
 	r.Rule("R-C20.1", "the decoder removes the chunk header in a way that is format-compatible with the encoder's Sprintf format for every index: the encoder writes <prefix><non-negative decimal index><delimiter><payload>; the decoder strips the prefix and cuts at the first occurrence of that same delimiter (which decimal digits cannot contain), or strips a fixed width that the encoder's index bound keeps fixed; the payload part appended is what follows the delimiter")
 	r.Rule("R-C20.2", "every run-time panic site of the encoder and decoder is discharged (length tests, clamped slice bounds, range bounds; the chunk-size division by constant-prefix call sites)")
 	r.Rule("R-C20.3", "entry length: with budget constant B the chunk size is B-len(prefix); an entry is at most B + digits(index) + len(delimiter) <= 255 for every index a ClientHello-sized payload can need; every module call site passes a constant prefix with 0 < len(prefix) < B")
+	r.Rule("R-C20.5", "the encoder refuses only empty inputs: every error return of BreakIntoNextProtos is reachable only through len(prefix)==0 or len(value)==0 (any other rejection, e.g. a size limit, refuses payloads that fit a ClientHello)")
 	r.Rule("R-C20.4", "every produced entry starts with the prefix: the format begins with a %s bound to the prefix parameter")
 	r.NotDecided = append(r.NotDecided, "content equality of the round trip for every payload", "interleaving with foreign entries beyond 'entries without the prefix are skipped'")
 
@@ -321,6 +322,39 @@ func c20(c *Ctx) {
 			r.Check(okW, "R-C20.1", "tls.CombineFromNextProtos header removal", p.Pos(fixed.Pos()),
 				"fixed width equals the encoder's width and the encoder bounds the index",
 				fmt.Sprintf("decoder strips a fixed %d bytes but the encoder writes a minimum-width (%%0%dd) index that grows beyond %d digits: payloads of %d or more chunks do not round-trip", k, dirs[1].width, dirs[1].width, bound))
+		}
+	}
+
+	// R-C20.5
+	{
+		isIn := func(pp core.Path) bool {
+			return len(pp.Fields) == 0 && (pp.Root == ssa.Value(enc.Params[0]) || pp.Root == ssa.Value(enc.Params[1]))
+		}
+		gNonEmpty := core.NonEmpty("prefix / value", isIn)
+		gStr := strEmptyGuard("prefix / value", isIn)
+		gEmpty := core.Guard{Name: "prefix or value empty", Match: func(cond ssa.Value) (int, bool) {
+			if s, ok := gNonEmpty.Match(cond); ok {
+				return 1 - s, true
+			}
+			return gStr.Match(cond)
+		}}
+		ei := core.ErrorResultIndex(enc.Signature)
+		n := 0
+		for i, ret := range core.Returns(enc) {
+			if core.ReturnErrKind(ret, ei) == core.ErrNilConst {
+				continue
+			}
+			n++
+			res := core.CutReach(p, enc, gEmpty, ret.Block())
+			if res.Reachable {
+				r.Add(core.Obligation{Rule: "R-C20.5", Construct: fmt.Sprintf("tls.BreakIntoNextProtos error-return#%d", i), Pos: p.Pos(ret.Pos()), Verdict: core.Violated,
+					Detail: "the encoder can refuse a non-empty prefix and value (a limit or check other than emptiness): payloads that fit a ClientHello no longer round-trip", Witness: res.Witness})
+			} else {
+				r.OK("R-C20.5", fmt.Sprintf("tls.BreakIntoNextProtos error-return#%d", i), p.Pos(ret.Pos()), "reached only for an empty prefix or value")
+			}
+		}
+		if n == 0 {
+			r.OK("R-C20.5", "tls.BreakIntoNextProtos error returns", p.Pos(enc.Pos()), "none")
 		}
 	}
 
